@@ -447,3 +447,23 @@ def used_qubits(den_node, all_cells, busy=("prepare_all", "measure_all"), idle=(
     if k == "loop":
         return used_qubits(den_node[2], all_cells, busy, idle)
     return set()
+
+
+def expand_subs(d, prepare="prepare_all", measure="measure_all"):
+    """C09 on denotations: sub(n, B) == seq[prepare, B..., measure]"""
+    k = d[0]
+    if k in ("gate", "invalid"):
+        return d
+    if k == "sub":
+        return ("seq", (("gate", prepare, ()),) + tuple(expand_subs(i, prepare, measure) for i in d[2]) + (("gate", measure, ()),))
+    if k in ("seq", "par"):
+        return (k, tuple(expand_subs(i, prepare, measure) for i in d[1]))
+    if k == "loop":
+        return ("loop", d[1], expand_subs(d[2], prepare, measure))
+    raise ValueError(d)
+
+
+def flat_meaning(d, prepare="prepare_all", measure="measure_all"):
+    if d[0] == "invalid":
+        return d
+    return norm_top((expand_subs(d, prepare, measure),))
